@@ -6,7 +6,7 @@
 set -u
 S=/tmp/ipt_cov; rm -rf $S; mkdir -p $S/prof
 BIN=$(rustc +nightly --print sysroot)/lib/rustlib/x86_64-unknown-linux-gnu/bin
-export CARGO_NET_OFFLINE=true CARGO_TARGET_DIR=$S/target RUSTFLAGS="-C instrument-coverage"
+export CARGO_NET_OFFLINE=true CARGO_TARGET_DIR=$S/target RUSTFLAGS="-C instrument-coverage" LLVM_PROFILE_FILE=$S/prof/build_%p.profraw
 ( cd /verif/harness && cargo +nightly build --release --offline 2>&1 | tail -2 )
 H=$S/target/release/ipt_harness
 units="angle civil jd astro top raw adj extlat imsaak h2t ptdt params hijri daterange qibla bounded f64cmp parse"
